@@ -96,7 +96,10 @@ def _adv_dataset(rng, d, regression):
     if regression:
         y = [round(rng.uniform(-1, 1) + 0.013, 4) for _ in range(n)]
     else:
-        y = [i % 2 for i in range(n)]
+        # the data sets of one pool may differ in target kind (binary / three classes / another binary encoding):
+        # a refit must follow the data of the last fit
+        labels = rng.choice([[0, 1], [0, 1], [0, 1, 2], [1, 2]])
+        y = [labels[i % len(labels)] for i in range(n)]
         rng.shuffle(y)
     a = [(i // 2) % 2 for i in range(n)]
     return {"X": X, "y": y, "a": a}
